@@ -22,6 +22,7 @@ type C17Case struct {
 	ALit   bool   `json:"alit"` // pass A as a literal (else as a variable)
 	BLit   bool   `json:"blit"`
 	Infix  bool   `json:"infix,omitempty"` // written in infix notation: in(a, [..]) / overlap([..], [..])
+	Const  bool   `json:"const,omitempty"` // operands that are not literals are published through ConstantMap instead of being bound as variables
 	Origin string `json:"origin,omitempty"`
 }
 
@@ -227,6 +228,20 @@ func genC17(t *rapid.T) C17Case {
 		}
 		c.A, c.B = m.V{X: probe}, m.V{X: l}
 	}
+	// independently of everything above: now and then one operand is an empty list of either element
+	// type - next to whatever the other one is, a non-list included
+	if rapid.IntRange(0, 9).Draw(t, "emptyany") == 0 {
+		var e interface{} = []string{}
+		if rapid.Bool().Draw(t, "emptyints") {
+			e = []int64{}
+		}
+		if c.Op == "overlap" && rapid.Bool().Draw(t, "emptyleft2") {
+			c.A = m.V{X: e}
+		} else {
+			c.B = m.V{X: e}
+		}
+	}
+	c.Const = rapid.IntRange(0, 4).Draw(t, "asconst") == 0
 	return c
 }
 
@@ -268,7 +283,9 @@ func listLen(v interface{}) int {
 	return -1
 }
 
-func c17Eval(src string, vars map[string]interface{}, mask int, infix bool) (Outcome, Outcome) {
+func c17Eval(src string, vars map[string]interface{}, mask int, infix bool, opts ...bool) (Outcome, Outcome) {
+	consts := len(opts) > 0 && opts[0]
+	try := len(opts) > 1 && opts[1]
 	cc := eval.NewConfig()
 	if infix {
 		eval.EnableInfixNotation(cc)
@@ -278,9 +295,17 @@ func c17Eval(src string, vars map[string]interface{}, mask int, infix bool) (Out
 	}
 	cc.VariableKeyMap["va"] = 1
 	cc.VariableKeyMap["vb"] = 2
+	if consts {
+		for n, v := range vars {
+			cc.ConstantMap[n] = v
+		}
+	}
 	e, co := SafeCompile(cc, src)
 	if co.Panic != nil || co.Err != nil {
 		return co, co
+	}
+	if try {
+		return co, Safe(func() (eval.Value, error) { return e.TryEval(eval.NewCtxFromVars(cc, vars)) })
 	}
 	return co, Safe(func() (eval.Value, error) { return e.Eval(eval.NewCtxFromVars(cc, vars)) })
 }
@@ -297,9 +322,13 @@ func checkC17(c C17Case, r *Rec) *Violation {
 		}
 	}
 	for _, mask := range []int{0, MaskFold, MaskFast, 15} {
-		co, o := c17Eval(src, vars, mask, c.Infix)
+		co, o := c17Eval(src, vars, mask, c.Infix, c.Const)
 		if co.Panic != nil || co.Err != nil {
-			return Violf("C17: compile failed for %s: %v", clip(src, 200), co)
+			return Violf("C17: compile failed for %s (operands as constants: %v): %v\na=%s\nb=%s", clip(src, 200), c.Const, co, clip(renderAny(c.A.X), 300), clip(renderAny(c.B.X), 300))
+		}
+		// TryEval with everything available computes the same thing
+		if _, ot := c17Eval(src, vars, mask, c.Infix, c.Const, true); !Agrees(ot, want, werr) {
+			return Violf("C17: TryEval of %s disagrees with set semantics (config %s, everything available)\nexpr=%s\na=%s\nb=%s\nengine=%v\nexpected=%s", c.Op, maskName(mask), clip(src, 300), clip(renderAny(c.A.X), 600), clip(renderAny(c.B.X), 600), ot, refString(want, werr))
 		}
 		if !Agrees(o, want, werr) {
 			return Violf("C17: %s disagrees with set semantics (config %s)\nexpr=%s\na=%s\nb=%s\nengine=%v\nexpected=%s", c.Op, maskName(mask), clip(src, 300), clip(renderAny(c.A.X), 600), clip(renderAny(c.B.X), 600), o, refString(want, werr))
@@ -307,7 +336,7 @@ func checkC17(c C17Case, r *Rec) *Violation {
 		if c.Op == "overlap" {
 			// symmetry, asserted directly on the engine
 			src2, vars2 := c17Expr(c, true)
-			_, o2 := c17Eval(src2, vars2, mask, c.Infix)
+			_, o2 := c17Eval(src2, vars2, mask, c.Infix, c.Const)
 			if !SameOutcome(o, o2) {
 				return Violf("C17: overlap is not symmetric (config %s)\n%s -> %v\n%s -> %v\na=%s\nb=%s", maskName(mask), clip(src, 200), o, clip(src2, 200), o2, clip(renderAny(c.A.X), 600), clip(renderAny(c.B.X), 600))
 			}
